@@ -344,14 +344,25 @@ def c02_work(item, ctx):
     if kind == "shared":
         return c02_shared_object_witness(res, ctx)
     two = kind == "two"
-    twoh = kind == "twoh"
+    twoh = kind in ("twoh", "twoc")
     exe = ctx["exes"]["asan2" if (two or twoh) else "asan"]
     rng = random.Random(F.seed_for(ctx["seed"], "C02", kind, idx))
     world = World(rng, ns=2 if (two or twoh) else 1)
     sim = S.Sim(exe, world.cfg)
     run = Runner(res, sim, world, "C02")
     noise = None
-    if twoh:
+    if kind == "twoc":
+        # the OTHER server is switched off and on again (its COB-IDs 1201h:1/2, bit 31) by the application between the steps of the
+        # reference transfer on server 0: resetting one server is no business of the other
+        def noise():
+            if rng.random() < 0.5:
+                sub = rng.choice([1, 2])
+                cur = int(sim.ret("rd 1201 %d 4" % sub)[1], 16)
+                r_ = sim.ret("wr 1201 %d 4 %x" % (sub, cur ^ 0x80000000))
+                res.counters["other_server_switched"] += 1
+                if r_ and r_[0] != "0":
+                    res.violation("c02/other-server/cob-id-write", "application write of %x to 1201h:%d returned %r" % (cur ^ 0x80000000, sub, r_), sim=sim)
+    elif twoh:
         # hostile traffic on the OTHER server while the reference client works on server 0; it addresses only objects the
         # reference transfer does not use (index 2100h sub-indices >= 6 and the strings), so the model stays valid
         import hostile as H
@@ -811,7 +822,7 @@ def for_property(prop):
     if prop == "C02":
         m.VARIANTS = ["asan", "asan2"]
         m.RULE = ("conforming downloads generated by a CiA 301 reference client over object kind x payload x mode x size indication x "
-                  "last-segment fill x lost-segment pattern, alone, interleaved with a second reference client on server 2, and under hostile traffic on server 2 (CO_SSDO_N=2); whole-dictionary "
+                  "last-segment fill x lost-segment pattern, alone, interleaved with a second reference client on server 2, under hostile traffic on server 2 and while the application switches server 2 off and on (CO_SSDO_N=2); whole-dictionary "
                   "storage compared after every transfer; non-trivial = confirmed transfer with >= 2 segments, or >= 2 blocks or >= 1 retransmitted block")
         m.ASSUMPTIONS = ["the final segment of every block arrives (a client whose block end is lost times out and aborts)",
                          "fixed-size objects: payload length == object width; a payload longer than a domain must end in an abort (how much of it was written before is not constrained)"]
@@ -822,6 +833,7 @@ def for_property(prop):
             items = [("one", i, 25 if q else 60) for i in range(48 if q else 2800)]
             items += [("two", i, 12 if q else 30) for i in range(24 if q else 1200)]
             items += [("twoh", i, 12 if q else 30) for i in range(16 if q else 800)]
+            items += [("twoc", i, 12 if q else 30) for i in range(12 if q else 400)]
             items += [("sizes", i, 40 if q else 250) for i in range(16 if q else 32)]
             items += [("shared", 0, 1)]
             return items
